@@ -18,7 +18,7 @@ limitations under the License.
 //> block content
 //? type_def.comment : type_def.java.comment | comment
 //? type_def.deprecated : "@Deprecated"
-{{ type_def.java.class_modifier }}class {{ type_def.java.name }}{{ (" implements Comparable<" ~ type_def.java.name ~ ">") if 'ord' in type_def.deriving and type_def.fields }} {
+{{ type_def.java.class_modifier }}class {{ type_def.java.name }}{{ (" implements Comparable<" ~ type_def.java.name ~ ">") if 'ord' in type_def.deriving }} {
 //> for field in type_def.fields
     {{ field.java.field_modifier ~ field.java.data_type }} {{ field.java.name }};
 //> endfor
@@ -37,7 +37,7 @@ limitations under the License.
     //? field.deprecated : "@Deprecated"
     public {{ field.java.data_type }} {{ field.java.getter }}() { return {{ field.java.name }}; }
 //> endfor
-//> if 'eq' in type_def.deriving and type_def.fields:
+//> if 'eq' in type_def.deriving:
 
     @Override
     public boolean equals(Object obj) {
@@ -49,6 +49,7 @@ limitations under the License.
         /*>- for field in type_def.fields */
 {{ (" " * 15 if not loop.first else " ") ~ field.java.equals ~ (";" if loop.last else " &&") }}
         /*> endfor */
+        //? not type_def.fields : "true;"
     }
 
     @Override
@@ -61,7 +62,7 @@ limitations under the License.
         return hashCode;
     }
 //> endif
-//> if 'ord' in type_def.deriving and type_def.fields:
+//> if 'ord' in type_def.deriving:
 
     @Override
     public int compareTo({{ type_def.java.name }} other) {
